@@ -86,6 +86,10 @@ META = {
         "leaves in the shared env (duplicate_refs) are reported inside nested_render_text at map + lineno + 1, only those added by this "
         "parse (slice from the length taken before it), and deleted right after; only then may the end-of-document report use map + 1. "
         "R1's class set includes comment nodes. "
+        "R2 (f): a function that receives a block of lines with its content offset (table BLOCK_PARAMS: nested_parse, block_quote, "
+        "parse_directive_block) hands (a slice of) that block on with an offset that still contains its own offset, plus the number of "
+        "lines cut off the head of the block. R2 also checks inside nested_render_text that what markdown-it parses is the text "
+        "parameter with its head intact (a trailing line break may be added). "
         "R8: a value returned by a package function that was given a line (L1/P kind) is not stored in a mapping that outlives the call "
         "(module global, attribute, document/env) under a key that omits that line - a replay would carry the first occurrence's lines."
     ),
@@ -629,6 +633,12 @@ EXTERNAL_PARAMS: dict[tuple[str, str], tuple[str, str]] = {
     ("myst_parser.mocking:MockState.parse_target", "lineno"): (L1, "docutils passes a 1-based line"),
     ("myst_parser.mocking:MockStateMachine.get_source_and_line", "lineno"): (L1, "docutils passes a 1-based line"),
 }
+# functions that receive a block of lines together with the content offset of its first line (docutils callback contract)
+BLOCK_PARAMS: dict[str, tuple[str, str]] = {
+    "myst_parser.mocking:MockState.nested_parse": ("block", "input_offset"),
+    "myst_parser.mocking:MockState.block_quote": ("lines", "line_offset"),
+    "myst_parser.mocking:MockState.parse_directive_block": ("content", "line_offset"),
+}
 LINE_OPTIONS = {"start-line": NK, "end-line": NK}  # include options: number of lines skipped / kept
 ATTR_KINDS = {"line": L1, "lineno": L1, "body_offset": OFF, "content_offset": OFF}
 STR_CALLS = {"join", "read_text", "render", "strip", "lstrip", "rstrip", "dedent", "lower", "upper", "replace", "format", "dumps"}
@@ -1114,6 +1124,96 @@ def r2_line_kinds(corpus: Corpus, rep: Report, tier: str):
                 rep.violation(R2, uniq(k), cfi.module.site(op), f"the text passed to {sink.name}() is `{short(op, 50)}`: leading (blank) lines are removed from it while the line argument still names the place of the unstripped text, so every nested line is reported one too low per removed line")
             else:
                 rep.ok(R2, uniq(k), site)
+    # ... and inside nested_render_text itself: what markdown-it parses is the `text` parameter with its head intact (the maps are
+    # then shifted by the unchanged line argument)
+    nrt_ = corpus.func(NESTED_RENDER)
+    n_parse = 0
+    for pc in sorted((x for x in nrt_.local_nodes() if isinstance(x, ast.Call) and isinstance(x.func, ast.Attribute) and x.func.attr in ("parse", "parseInline") and "self.md" in unparse(x.func.value)), key=lambda c: (c.lineno, c.col_offset)):
+        n_parse += 1
+        e = pc.args[0] if pc.args else None
+        drops = []
+        for _hop in range(8):
+            if e is None:
+                break
+            if isinstance(e, ast.BinOp) and isinstance(e.op, ast.Add):
+                # text + "\n": a suffix; a prefix that contains a line break would add lines in front
+                if isinstance(e.left, ast.Constant) and isinstance(e.left.value, str) and "\n" in e.left.value:
+                    drops.append(e)
+                e = e.left if not isinstance(e.left, ast.Constant) else e.right
+            elif isinstance(e, ast.Name) and _owner_of_param(nrt_, e.id) is None:
+                ds = [v for _s, v, how in _defs(nrt_, e.id) if how == "assign" and v is not None]
+                if len(ds) != 1 or len(_defs(nrt_, e.id)) != 1:
+                    break
+                e = ds[0]
+            elif isinstance(e, ast.Call) and isinstance(e.func, ast.Attribute) and e.func.attr in ("strip", "lstrip", "rstrip", "expandtabs", "replace"):
+                chars = e.args[0].value if e.args and isinstance(e.args[0], ast.Constant) and isinstance(e.args[0].value, str) else (None if not e.args else "?")
+                if e.func.attr in ("strip", "lstrip") and (chars is None or chars == "?" or "\n" in chars):
+                    drops.append(e)
+                e = e.func.value
+            elif isinstance(e, ast.Subscript) and isinstance(e.slice, ast.Slice) and e.slice.lower is not None:
+                drops.append(e)
+                e = e.value
+            else:
+                break
+        k = uniq(f"{nrt_.fq}|{short(pc.func, 30)} parses the text with its leading lines")
+        if drops:
+            rep.violation(R2, k, nrt_.module.site(drops[0]), f"nested_render_text parses `{short(pc.args[0], 50)}`: `{short(drops[0], 40)}` changes the number of lines in front of the text, but the token maps are still shifted by the unchanged `{LINE_SINKS[nrt_.fq][1]}` - every line of the text is reported too low by the number of lines dropped")
+        elif isinstance(e, ast.Name) and e.id in nrt_.params:
+            rep.ok(R2, k, nrt_.module.site(pc), f"`{e.id}` (+ a trailing line break)")
+        else:
+            rep.error(R2, f"{nrt_.module.site(pc)}: cannot relate the parsed text `{short(pc.args[0], 50) if pc.args else '?'}` to the text parameter")
+    if n_parse == 0:
+        rep.error(R2, "nested_render_text: no markdown-it parse call found")
+    # ---- (f) a block handed on together with a content offset: cut k lines off its head -> offset + k; otherwise the same offset
+    for fi in r2_funcs:
+        pair = BLOCK_PARAMS.get(fi.fq)
+        if pair is None:
+            continue
+        bparam, oparam = pair
+        if bparam not in fi.params or oparam not in fi.params:
+            rep.error(R2, f"{fi.fq}: block/offset parameters {pair} of the table not found")
+            continue
+        for n in sorted((x for x in fi.local_nodes() if isinstance(x, ast.Call)), key=lambda x: (x.lineno, x.col_offset)):
+            for t in get_callgraph(corpus).resolve_call(n, fi):
+                if not (isinstance(t, FunctionInfo) and t.fq in BLOCK_PARAMS):
+                    continue
+                tb, to = BLOCK_PARAMS[t.fq]
+                ba, oa = _arg_for(n, t, tb), _arg_for(n, t, to)
+                if ba is None or oa is None:
+                    continue
+                # the block argument: this function's block, or a slice of it (through a local with one shape)
+                alts = [ba]
+                if isinstance(ba, ast.Name) and ba.id != bparam and _owner_of_param(fi, ba.id) is None:
+                    alts = [v for _s, v, how in _defs(fi, ba.id) if how == "assign" and v is not None] or [ba]
+                cuts_ = []
+                related = True
+                for a_ in alts:
+                    if isinstance(a_, ast.Name) and a_.id == bparam:
+                        continue
+                    if isinstance(a_, ast.Subscript) and isinstance(a_.value, ast.Name) and a_.value.id == bparam and isinstance(a_.slice, ast.Slice):
+                        if a_.slice.lower is not None:
+                            cuts_.append(a_.slice.lower)
+                        continue
+                    related = False
+                if not related:
+                    continue  # some other text (e.g. a joined string): judged by the conventions of its own sink
+                k = uniq(f"{_key_owner(corpus, fi).fq}|{t.name}({short(ba, 25)}, {short(oa, 30)}) carries the content offset")
+                site = fi.module.site(n)
+                onames = _names(oa)
+                for nm_ in list(onames):
+                    if _owner_of_param(fi, nm_) is None:
+                        for _s, v_, h_ in _defs(fi, nm_):
+                            if h_ == "assign" and v_ is not None and len(_defs(fi, nm_)) == 1:
+                                onames |= _names(v_)
+                missing_cut = [c_ for c_ in cuts_ if not (_names(c_) <= onames) or (isinstance(c_, ast.Constant) and unparse(c_) not in unparse(oa))]
+                if oparam not in onames:
+                    rep.violation(R2, k, site, f"`{short(n, 70)}` hands on (part of) the block `{bparam}` with the offset `{short(oa, 30)}`, which no longer contains `{oparam}` - the content offset accumulated so far is dropped, so everything parsed from that part is located too low by `{oparam}` lines")
+                elif missing_cut:
+                    rep.violation(R2, k, site, f"`{short(n, 70)}` cuts `{short(missing_cut[0], 20)}` line(s) off the head of `{bparam}` but the offset `{short(oa, 30)}` does not grow by that number")
+                elif not cuts_ and unparse(oa) != oparam and not (isinstance(oa, ast.Name) and oparam in onames):
+                    rep.violation(R2, k, site, f"`{short(n, 70)}` hands on `{bparam}` from its first line but with the offset `{short(oa, 30)}` instead of `{oparam}`")
+                else:
+                    rep.ok(R2, k, site, "offset of the block" + (f" + {short(cuts_[0], 20)} line(s) cut off its head" if cuts_ else ""))
     for ck in NRT_CONVENTION:
         if ck not in seen_conv:
             rep.error(R2, f"convention table entry {ck} matches no call site any more")
@@ -3464,6 +3564,29 @@ def mutants(corpus: Corpus):
     c = find_node(f, lambda n: isinstance(n, ast.Call) and isinstance(n.func, ast.Attribute) and n.func.attr == "run_directive")
     t0 = arg_or_kw(c, 2, "content") if c is not None else None
     add("c04-directive-content-head-sliced", R2, base, t0, f"{unparse(t0)}[1:]" if t0 is not None else "", "text keeps its leading lines")
+
+    # ---- R2 (f): a block handed on keeps / advances its content offset;  nested_render_text parses the text as given
+    f = mk.func("MockState.block_quote")
+    rec = find_node(f, lambda n: isinstance(n, ast.Call) and isinstance(n.func, ast.Attribute) and n.func.attr == "block_quote" and len(n.args) == 2)
+    if rec is not None and isinstance(rec.args[1], ast.BinOp):
+        add("c04-block-quote-rest-loses-content-offset", R2, mk, rec.args[1], unparse(rec.args[1].right), "carries the content offset", canary=True)
+        add("c04-block-quote-rest-offset-not-advanced", R2, mk, rec.args[1], unparse(rec.args[1].left), "carries the content offset")
+    else:
+        out.append(("c04-block-quote-rest-loses-content-offset", "recursive block_quote call with offset + index not found"))
+    np_ = find_node(f, lambda n: isinstance(n, ast.Call) and isinstance(n.func, ast.Attribute) and n.func.attr == "nested_parse" and len(n.args) >= 2)
+    add("c04-block-quote-body-parsed-at-offset-zero", R2, mk, np_.args[1] if np_ is not None else None, "0", "carries the content offset")
+    f = base.func("DocutilsRenderer.nested_render_text")
+    pcs = sorted((n for n in f.local_nodes() if isinstance(n, ast.Call) and isinstance(n.func, ast.Attribute) and n.func.attr == "parse" and "self.md" in unparse(n.func.value) and n.args), key=lambda c: c.lineno)
+    if pcs:
+        a0 = pcs[0].args[0]
+        tn_ = next((x for x in ast.walk(a0) if isinstance(x, ast.Name) and x.id in f.params), None)
+        add("c04-nested-text-leading-blank-lines-dropped-before-parse", R2, base, tn_, f'{tn_.id}.lstrip("\\n")' if tn_ is not None else "", "parses the text with its leading lines")
+        if len(pcs) > 1:
+            a1 = pcs[-1].args[0]
+            tn1 = next((x for x in ast.walk(a1) if isinstance(x, ast.Name) and x.id in f.params), None)
+            add("c04-nested-text-stripped-before-parse", R2, base, tn1, f"{tn1.id}.strip()" if tn1 is not None else "", "parses the text with its leading lines")
+    else:
+        out.append(("c04-nested-text-leading-blank-lines-dropped-before-parse", "markdown-it parse call in nested_render_text not found"))
 
     # ---- R8: line-dependent results cached under a line-free key
     f = dm.func("parse_directive_text")
